@@ -24,7 +24,8 @@ P = {
          "Decides the structural clauses of late-bound expansion: no cpy implementation can reach an evaluation function (references survive Merge "
          "unresolved and are evaluated at read time), ${} parsing happens only under VarExp, expression objects are never written after construction, "
          "resolveEnv reports success only after a resolver succeeded (an unresolvable reference is an error, never an empty value), and the lookup "
-         "order tree root -> Env last-to-first -> resolvers last-to-first is the one coded. Operator semantics, escapes and typed results are value-level "
+         "order tree root -> Env last-to-first -> resolvers last-to-first is the one coded, a configuration that does not hold the name handing over "
+         "to the next one (the lookup ends only with the value found or with the environments used up). Operator semantics, escapes and typed results are value-level "
          "and not decided.",
          TRUST,
          "§3 C02"),
@@ -57,7 +58,7 @@ P = {
          "value.reify implementation can return - the image of Unpack into interface{} - has a kind normalizeValue accepts (dispatch simulated per "
          "kind), nil included, so the generic image can be fed back in; (b) input maps are enumerated in one place, which accepts string- and "
          "interface-kinded keys alike and names a key only after chasing the interface; (c) maps and structs hand every (name, value) pair to "
-         "normalizeSetField and nothing else in the normalize family stores a named setting; that function parses the name with the configured "
+         "normalizeSetField and nothing else in the normalize family stores a named setting or merges a normalised part into the tree under construction; that function parses the name with the configured "
          "separator, stores only where nothing non-nil is present, merges only object with object and reports every other collision as a duplicate; "
          "(d) normalizeValue chases pointers and interfaces before it looks at kind or special type; (e) the name a struct field is stored under is the "
          "name part of its tag as written (only Split/index/TrimSpace between the tag and the name), as a map key is. Round-trip equality, numeric equality and "
@@ -75,7 +76,8 @@ P = {
          "tested before the numeric kinds on both sides and written/read by an inverse library pair; for each of the 27 reflect kinds the "
          "dispatches of normalizeValue, reifyMergeValue, reifyValue and doReifyPrimitive are simulated: the writer accepts every kind the property "
          "names and the reader's converter accepts the value classes the writer produces; the cross-sign integer conversions have succeeding paths and "
-         "their range guards admit the whole range of the destination (the extreme representable values pass).",
+         "their range guards admit the whole range of the destination (the extreme representable values pass); a Go value is read by its kind "
+         "(reflect Int/Uint/Float/Bool/String into a value constructor) only in normalizeValue, where the specially encoded types come first.",
          TRUST + "Value equality after the round trip (number formatting and precision, pointer depth, nil vs empty, Duration text) is value-level and "
          "not decided; the class tables of handler functions and the inverse-pair table are frozen in the checker (unknown handlers are undecided).",
          "§3 C06"),
@@ -133,7 +135,8 @@ P = {
          "Decides purity of every read entry point on every code path: the receiver's reachable state is in no mod set of Unpack, the getters, Child, "
          "Has, HasField, CountField, GetFields, IsDict/IsArray, Path/PathOf/Parent, FlattenedKeys, CompareConfigs (and the source of Merge/NewFrom); "
          "no non-atomic write to package-level state is reachable; nothing is stored on expression / dynamic-value / path / metadata objects after "
-         "construction. Purity on all paths gives data-race freedom for all interleavings of readers, which no test schedule can settle. "
+         "construction; a node has one header (a Config only receives a fields object allocated in the same function and is never copied by value), "
+         "which the identity test guarding repeated Unpack into a captured child relies on. Purity on all paths gives data-race freedom for all interleavings of readers, which no test schedule can settle. "
          "Not decided: that each reader computes the same result as alone (beyond purity); races inside user callbacks.",
          TRUST + "Reflect sink cut: objects stored into the caller's unpack target are not tracked through it. valueCache is modelled as per-call.",
          "§3 C11, §2 E1"),
@@ -143,7 +146,7 @@ P = {
          "one function, parsePathIdx(own name, own idx, options from own arguments), and access their own receiver through the resulting path — so a "
          "getter reads back what a setter wrote at the same address; node storage is written only by the fields methods, on freshly constructed nodes, "
          "or by the merge functions (closed set of writers, each paired under C15). Also: Remove walks with environments cleared; a child handle is "
-         "the stored config itself; the path writer touches the live tree only with its last fallible step (missing levels are built detached), so a "
+         "the stored config itself and SetChild stores the caller's own config, wrapped and never copied; the path writer touches the live tree only with its last fallible step (missing levels are built detached), so a "
          "rejected write leaves the tree as it was; node mutators move stored values and never replace one by a copy. The equivalence with a plain tree over all operation histories is value-level and not decided.",
          TRUST,
          "§3 C12"),
@@ -174,7 +177,7 @@ P = {
          "(recovered from the producing cpy call, a following SetContext, the normalize call or the literal) pairs with the storage key and with the "
          "owner of the receiving fields; in-place element moves are followed by renumbering of every moved element; every SetContext implementation "
          "stores its argument reachably on every path; Parent() and path() read the same two fields; the text of an index field is the decimal "
-         "rendering of its own integer. Since the invariant can only be broken at a "
+         "rendering of its own integer; an existing node is re-contexted only next to the store that attaches it or to renumber it. Since the invariant can only be broken at a "
          "store or a move, it holds after any operation history. FlattenedKeys' set equality and the diff partition are not decided.",
          TRUST,
          "§3 C15"),
@@ -202,7 +205,8 @@ P = {
          "Decides that the yaml/json/hjson front-ends are structurally identical siblings (decode into a local, return the decoder error, "
          "NewFrom with the caller's options unchanged; file loaders prepend MetaData(Meta{Source:name}) and delegate), that the file name "
          "reaches options.meta, that every value and Config built by normalize* carries opts.meta, that the intermediate nodes created for a dotted "
-         "key take the metadata of the value being stored, and that every error constructor forwards real metadata to messageMeta. Holds for all documents at once; equality of the data produced by the three third-party decoders is not decided.",
+         "key take the metadata of the value being stored, that every error constructor forwards real metadata to messageMeta, and that no normalize "
+         "function has a store path of its own for one decoder's representation (every named setting goes through normalizeSetField). Holds for all documents at once; equality of the data produced by the three third-party decoders is not decided.",
          TRUST + "Third-party decoders are outside the tree.",
          "§3 C18"),
  "C19": (True,
@@ -210,7 +214,8 @@ P = {
          "Decides, for every function of packages flag and cfgutil on the current tree, that no ...ucfg.Option parameter is dropped on the way to "
          "NewFrom/Merge/Unpack or the collector's option field, that Collector.err is write-once and returned first, that FlagValue.Set feeds "
          "the collector on every path, and that the key=value loader treats empty values and bare keys as stated (an argument is ignored only when "
-         "its raw value part is empty — never after the value was parsed, so null/[]/{} still override). These are necessary structural "
+         "its raw value part is empty — never after the value was parsed, so null/[]/{} still override), and that the config a loader returns is "
+         "made by NewFrom / New+Merge or the user's file loader, so that the flag's options apply to the value. These are necessary structural "
          "clauses of C19 that hold for all argument sequences at once; equality with a sequence of merges (a value-level fact) is not decided.",
          TRUST + "Does not cover user-supplied FileLoader functions.",
          "§3 C19"),
